@@ -93,7 +93,12 @@ SMAttrs == JsonDeserialize(IOEnv.SM_ATTRS)       \* <<"current_state", "done", .
 SafeNames == {"a", "begin", "my_state", "done2", "engaged", "state"}
 
 VARIABLES case
-HierCases == UNION {{[k |-> "hier", h |-> h, cls |-> c] : c \in Assign(NClasses(h), MaxTotal)} : h \in Hiers}
+\* pre: every class of the hierarchy that is written before the last one was itself instantiated (and bound to
+\* NetworkTables) before the last one is - what a machine is must not depend on which of its base classes
+\* have been instantiated before
+HierCases == UNION {{[k |-> "hier", h |-> h, cls |-> c, pre |-> p] : c \in Assign(NClasses(h), MaxTotal),
+                                                                   p \in (IF NClasses(h) > 1 THEN BOOLEAN ELSE {FALSE})}
+                    : h \in Hiers}
 SigCases == {[k |-> "sig", d |-> d, ps |-> s] : d \in Decorators, s \in SigSeqs}
 NameCases == {[k |-> "name", d |-> d, n |-> SMAttrs[i]] : d \in Decorators, i \in 1..Len(SMAttrs)}
              \cup {[k |-> "name", d |-> d, n |-> n] : d \in Decorators, n \in SafeNames}
